@@ -55,7 +55,11 @@ pub fn pay_for(bits: &[bool], rng: &mut Rng) -> String {
         payees.iter().map(|p| (*p, *p, true, if rng.chance(1, 6) { 'b' } else { 'f' }, true, true, rng.range(0, 9))).collect();
     if !sigs {
         let i = rng.below(nq as u64) as usize;
-        if rng.chance(1, 2) {
+        if rng.chance(1, 4) && qs[i].0 != 0 && nq > 1 {
+            // the claimed id does not decode (the quote itself may even be validly signed by its issuer)
+            qs[i].0 = if rng.chance(1, 2) { 999 } else { 998 };
+            qs[i].2 = rng.chance(1, 2);
+        } else if rng.chance(1, 2) {
             qs[i].2 = false;
         } else {
             qs[i].1 = (qs[i].0 + 1) % 6; // signed by somebody else than the claimed payee
@@ -86,7 +90,7 @@ pub fn pay_for(bits: &[bool], rng: &mut Rng) -> String {
             qs[i].4 = false;
         }
     }
-    let mut close_set: Vec<u64> = qs.iter().map(|q| q.0).collect();
+    let mut close_set: Vec<u64> = qs.iter().map(|q| q.0).filter(|p| *p < 998).collect();
     close_set.sort();
     close_set.dedup();
     if !close {
@@ -97,7 +101,14 @@ pub fn pay_for(bits: &[bool], rng: &mut Rng) -> String {
     }
     let qstr: Vec<String> = qs
         .iter()
-        .map(|q| format!("{}.{}.{}.{}.{}.{}.{}", q.0, q.1, q.2 as u8, q.3, q.4 as u8, q.5 as u8, q.6))
+        .map(|q| {
+            let payee = match q.0 {
+                999 => "x".to_string(),
+                998 => "y".to_string(),
+                p => p.to_string(),
+            };
+            format!("{payee}.{}.{}.{}.{}.{}.{}", q.1, q.2 as u8, q.3, q.4 as u8, q.5 as u8, q.6)
+        })
         .collect();
     format!("{};{}", qstr.join(","), if close_set.is_empty() { "-".into() } else { join(&close_set, ".") })
 }
@@ -293,6 +304,10 @@ pub fn single_cause_corpus() -> Vec<String> {
     pays.push((vec![GOOD[0].to_string(), GOOD[1].to_string()], "0.1.2")); // two entries
     pays.push((vec![GOOD[1].to_string(), GOOD[0].to_string(), GOOD[2].to_string(), "3.3.1.f.1.1.1".to_string()], "0.1.2.3")); // four
     pays.push((vec![GOOD[1].to_string(), GOOD[2].to_string(), "3.3.1.f.1.1.1".to_string(), "4.4.1.f.1.1.1".to_string(), GOOD[0].to_string()], "0.1.2.3.4")); // five, own last
+    pays.push((with(1, "x.1.1.f.1.1.2"), "0.1.2")); // a quote claims peer-id bytes that do not decode ([0xFF;3]), validly signed by peer 1
+    pays.push((with(1, "y.1.1.f.1.1.2"), "0.1.2")); // ... empty id bytes
+    pays.push((vec![GOOD[0].to_string(), "x.4.0.f.1.1.1".to_string(), "x.4.0.f.1.1.1".to_string()], "0")); // own genuine quote + unsigned quotes with undecodable ids
+    pays.push((vec!["y.4.0.f.1.1.1".to_string(), GOOD[0].to_string(), "x.4.0.f.1.1.1".to_string()], "0"));
     pays.push((with(0, "0.0.1.f.0.1.5"), "0.1.2")); // own quote issued for another address
     pays.push((with(1, "1.1.1.f.0.1.2"), "0.1.2")); // (another payee's quote for another address: allowed)
     let mut v = vec![];
@@ -414,12 +429,17 @@ fn c04_cases(rng: &mut Rng, thorough: bool) -> Vec<String> {
 // ---------------------------------------------------------------- C07 histories
 
 fn mutable_delivery(fam: &str, id: u64, rng: &mut Rng) -> String {
+    mutable_delivery_at(fam, id, 0, rng)
+}
+
+/// `base`: offset added to scratchpad counters (histories near u64::MAX use base = u64::MAX - 9)
+fn mutable_delivery_at(fam: &str, id: u64, base: u64, rng: &mut Rng) -> String {
     let dk = 3 * id + space(fam);
     let rk = if rng.chance(1, 12) { 3 * ((id + 1) % 3) + space(fam) } else { dk };
     let (content, paid_kind, unpaid_kind) = match fam {
         "pad" => {
-            let sig = if rng.chance(4, 5) { "v" } else { *rng.pick(&["w", "n"]) };
-            (format!("S{id}.{}.{sig}", rng.range(0, 9)), "padp", "pad")
+            let sig = if rng.chance(4, 5) { *rng.pick(&["v", "v", "v", "d"]) } else { *rng.pick(&["w", "n"]) };
+            (format!("S{id}.{}.{sig}", base + rng.range(0, 9)), "padp", "pad")
         }
         "tx" => (format!("T{id}.{}.{}", rng.range(1, 6), if rng.chance(4, 5) { "v" } else { "i" }), "txp", "tx"),
         _ => {
@@ -559,6 +579,75 @@ fn mixed_vector_case(rng: &mut Rng) -> String {
     format!("case {} r tx {} T{} -", store_str(store), 3 * rk_owner + 1, es.join(","))
 }
 
+
+// ---------------------------------------------------------------- close-set component (real SwarmDriver)
+
+/// `n` routing-table peers (ids from 10 up) that fit the k-buckets (at most K_VALUE per bucket), by distance
+fn routing_table(n: usize, offset: u64) -> Vec<u64> {
+    let k = libp2p::kad::K_VALUE.get();
+    let mut per_bucket = std::collections::HashMap::new();
+    let mut v = vec![];
+    let mut id = 10 + offset;
+    while v.len() < n && id <= 250 {
+        let b = crate::closepeers::bucket(0, id);
+        let c = per_bucket.entry(b).or_insert(0usize);
+        if *c < k {
+            *c += 1;
+            v.push(id);
+        }
+        id += 1;
+    }
+    crate::closepeers::sort_by_distance(&mut v);
+    v
+}
+
+pub fn close_lines(n: u64, rng: &mut Rng) -> Vec<String> {
+    let mut v = vec![];
+    let fmt = |r: usize, t: &[u64]| format!("close {r} {}", join(t, "."));
+    // corpus: table sizes around K_VALUE, payee ranks around K_VALUE-1
+    for size in [1usize, 5, 18, 19, 20, 21, 25, 45] {
+        let t = routing_table(size, 0);
+        let mut ranks: Vec<usize> = vec![0, 17, 18, 19, 20, 21, size - 1];
+        ranks.retain(|r| *r < t.len());
+        ranks.sort();
+        ranks.dedup();
+        for r in ranks {
+            v.push(fmt(r, &t));
+        }
+    }
+    while (v.len() as u64) < n {
+        let size = rng.range(1, 45) as usize;
+        let t = routing_table(size, rng.below(100));
+        let r = if t.len() > 17 && rng.chance(2, 3) { rng.range(16, (t.len() - 1).min(23) as u64) as usize } else { rng.below(t.len() as u64) as usize };
+        v.push(fmt(r, &t));
+    }
+    v
+}
+
+/// C07: scratchpad counters at and around u64::MAX
+pub fn max_counter_corpus() -> Vec<String> {
+    let pay = format!("{};0.1.2", GOOD.join(","));
+    let m = u64::MAX;
+    let hists: Vec<(String, Vec<String>)> = vec![
+        (format!("1=S{}", m - 1), vec![
+            format!("r pad 1 S0.{m}.v -"), format!("r pad 1 S0.{m}.d -"), format!("c pad 1 S0.{m}.d -"),
+            format!("c padp 1 S0.{m}.d {pay}"), format!("r pad 1 S0.{}.v -", m - 1), format!("r pad 1 S0.{m}.v -"),
+        ]),
+        (format!("1=S{m}"), vec![format!("c pad 1 S0.{m}.d -"), format!("r pad 1 S0.{m}.d -"), "r pad 1 S0.0.v -".to_string()]),
+        (format!("1=S{}", m - 2), vec![format!("c pad 1 S0.{}.v -", m - 1), format!("c pad 1 S0.{m}.v -"), format!("c pad 1 S0.{m}.d -")]),
+        ("-".to_string(), vec![format!("r pad 1 S0.{m}.v -"), format!("r pad 1 S0.{m}.d -"), format!("c padp 1 S0.{m}.d {pay}")]),
+    ];
+    let mut v = vec![];
+    for (store, ds) in hists {
+        v.push(format!("new {store}"));
+        for d in ds {
+            v.push(format!("deliver {d}"));
+            v.push("dump".to_string());
+        }
+    }
+    v
+}
+
 pub struct Gen {
     queue: VecDeque<String>,
     /// ids of validations begun in the current interleaved phase
@@ -587,6 +676,11 @@ impl Gen {
                 }
                 while (g.queue.len() as u64) < n + fixed {
                     let l = sample_case(&mut g.rng);
+                    g.queue.push_back(l);
+                }
+            }
+            "close" => {
+                for l in close_lines(n, &mut g.rng) {
                     g.queue.push_back(l);
                 }
             }
@@ -628,6 +722,9 @@ impl Gen {
                 for l in cross_kind_corpus() {
                     g.queue.push_back(l);
                 }
+                for l in max_counter_corpus() {
+                    g.queue.push_back(l);
+                }
                 g.remaining_histories = n;
             }
         }
@@ -640,10 +737,12 @@ impl Gen {
         let id = rng.below(3);
         // one history in four (of the owner-keyed ones) mixes scratchpads and transactions of one owner
         let cross = fam != "reg" && rng.chance(1, 3);
+        // one scratchpad history in six lives at the top of the counter range
+        let base = if fam == "pad" && rng.chance(1, 6) { u64::MAX - 9 } else { 0 };
         let dk = 3 * id + space(fam);
         let store = if rng.chance(2, 3) {
             let d = match fam {
-                "pad" => format!("S{}", rng.range(0, 5)),
+                "pad" => format!("S{}", base + rng.range(0, 5) + if base > 0 { 4 } else { 0 }),
                 "tx" => format!("T{}", join(&subset(rng, 1, 3, true), ".")),
                 _ => format!("R{}", join(&subset(rng, 1, 3, false), ".")),
             };
@@ -657,7 +756,7 @@ impl Gen {
             if rng.chance(3, 5) {
                 for _ in 0..rng.range(1, 4) {
                     let f = if cross { *rng.pick(&["pad", "tx"]) } else { fam };
-                    let d = mutable_delivery(f, id, rng);
+                    let d = mutable_delivery_at(f, id, base, rng);
                     self.queue.push_back(format!("deliver {d}"));
                     self.queue.push_back("dump".into());
                 }
@@ -666,7 +765,7 @@ impl Gen {
                 let k = if rng.chance(1, 5) { 3 } else { 2 };
                 for i in 0..k {
                     let name = ["a", "b", "c"][i].to_string();
-                    let d = mutable_delivery(fam, id, rng);
+                    let d = mutable_delivery_at(fam, id, base, rng);
                     self.queue.push_back(format!("begin {name} {d}"));
                 }
                 self.queue.push_back("@interleave".into());
